@@ -1,4 +1,5 @@
-// instantiation TU for cxx2coq (C14): the container-level functions that decide whether the crew is touched
+// instantiation TU for cxx2coq (C14): the container-level functions that decide whether the crew is touched, and the
+// two-object functions (Swap, move construction) of crews and containers
 #include "momo/HashSet.h"
 #include "momo/TreeSet.h"
 #include "momo/HashMultiMap.h"
@@ -6,9 +7,12 @@
 namespace momo {
 template class TreeSet<int>;
 template class HashSet<int>;
+// inline crew: no iterator versions + the stateless default manager
+struct C14NoVer : public HashSetSettings { static const bool checkVersion = false; };
+template class HashSet<int, HashTraits<int>, MemManagerDefault, HashSetItemTraits<int, MemManagerDefault>, C14NoVer>;
 struct C14Rw { int k; };
 typedef DataTable<DataColumnListStatic<C14Rw>> C14Table;
 typedef HashMultiMap<int, int> C14Multi;
 // one use of every member that is translated, so that clang instantiates the bodies
-inline void c14_use(C14Table& t, C14Multi& m) { t.Clear(); m.Clear(); }
+inline void c14_use(C14Table& t, C14Table& t2, C14Multi& m, C14Multi& m2) { t.Clear(); m.Clear(); t.Swap(t2); m.Swap(m2); }
 }
